@@ -13,22 +13,31 @@ def cli_adds(rep, b, ch, ldns, ks):
     execs = []
     tool = b.tool("dadd")
     nrun = 0
-    for kind in ("ymd", "ymcw", "ywd", "yd", "ldn"):
-        for k in ks:
+    def spell(kind, r):
+        # "ymcw0": the n-th Sunday written with weekday 0 (%w takes 0 and 7 for Sunday; the value is then held with a 0 in its weekday slot)
+        return cc.fmt_row("ymcw", r)[:-2] + "00" if kind == "ymcw0" else cc.fmt_row(kind, r)
+    for kind in ("ymd", "ymcw", "ywd", "yd", "ldn", "ymcw0"):
+        nota = "ymcw" if kind == "ymcw0" else kind
+        for k in (ks if kind != "ymcw0" else sorted(set(list(ks) + [2, 3, 4, 5, 6, 7, 10, -3]))):
             for unit, mult in (("d", 1), ("w", 7)):
                 rows = [(l, ch.row(l)) for l in ldns
                         if chainmod.LDN_1601 <= l + mult * k <= (caldrv.TAIL_FIRST - 1 if kind == "ldn" else chainmod.LDN_LAST)]
-                inp = "".join(cc.fmt_row(kind, r) + "\n" for _, r in rows)
-                rc, lines, err = cc.tool_lines(tool, ["-i", cc.INFMT[kind], "%+d%s" % (k, unit)], inp)
+                if kind == "ymcw0":
+                    # every Sunday next to the sampled days
+                    rows = [(l + 7 - r[4], ch.row(l + 7 - r[4])) for l, r in rows if chainmod.LDN_1601 <= l + 7 - r[4] + mult * k <= chainmod.LDN_LAST - 7]
+                inp = "".join(spell(kind, r) + "\n" for _, r in rows)
+                rc, lines, err = cc.tool_lines(tool, ["-i", cc.INFMT[nota], "%+d%s" % (k, unit)], inp)
                 nrun += 1
                 if len(lines) != len(rows):
                     rep.disagree("cli dadd -i %s %+d%s: %d lines for %d inputs" % (kind, k, unit, len(lines), len(rows)), {"stderr": err[:200]})
                     continue
                 for (l, r), got in zip(rows, lines):
+                    if kind == "ymcw0" and got.endswith("-00"):
+                        got = got[:-2] + "07"       # a week step keeps the weekday slot as it was written: 00 and 07 both denote the Sunday
                     t = ch.row(l + mult * k)
                     execs.append([{"e": "Reset", "y": t[1], "m": t[2], "d": t[3]},
-                                  {"e": "Txt", "src": "dadd -i %s %+d%s" % (kind, k, unit), "in": cc.fmt_row(kind, r),
-                                   "txt": {cc.OUTKEY[kind]: got}}])
+                                  {"e": "Txt", "src": "dadd -i %s %+d%s" % (kind, k, unit), "in": spell(kind, r),
+                                   "txt": {cc.OUTKEY[nota]: got}}])
     rep.notes["tool_runs"] = rep.notes.get("tool_runs", 0) + nrun
     return execs
 
